@@ -55,7 +55,7 @@ Canon(v) ==
   CASE v[1] = "f16" -> F16ToF64(v[2])
     [] v[1] = "f32" -> F32ToF64(v[2])
     [] v[1] = "f64" -> IF IsNaN64(v[2]) THEN CanonNaN ELSE v
-    [] v[1] = "arr" -> <<"arr", [k \in 1..Len(v[2]) |-> Canon(v[2][k])]>>
+    [] v[1] = "arr" \/ v[1] = "u8arr" -> <<"arr", [k \in 1..Len(v[2]) |-> Canon(v[2][k])]>>     \* UBJSON: an array typed as uint8 is an array
     [] v[1] = "map" -> <<"map", {<<Canon(v[2][k][1]), Canon(v[2][k][2])>> : k \in 1..Len(v[2])}>>
     [] v[1] = "tag" -> <<"tag", v[2], Canon(v[3])>>
     [] OTHER -> v
